@@ -576,8 +576,14 @@ def run(ctx, explain=False):
                     name="MC_Promolecule(4 configurations, all orders x %d motions)" % (24 * (2 * shifts + 1)), timeout=1200)
     els, recipes = _recipes(ctx)
     traces = pool_map(drive, recipes, chunksize=1)
+    # density objects kept and moved in place through their own positions array: whether the kernel follows the public array is
+    # a detail the listed property leaves open (it speaks of the atoms an object is built from) - judged beyond the property
+    beyond = [t for t in traces if (t.get("meta", {}).get("recipe") or {}).get("inplace")]
+    traces = [t for t in traces if not (t.get("meta", {}).get("recipe") or {}).get("inplace")]
     ctx.validate("trace/Trace_Promolecule.tla", traces, consts="  TDen = %d\n" % TDEN,
                  batch=ctx.pick(None, 500), timeout=1500)
+    ctx.validate("trace/Trace_Promolecule.tla", beyond, consts="  TDen = %d\n" % TDEN, name="Trace_Promolecule (objects moved in place; extension)",
+                 batch=ctx.pick(None, 500), timeout=1500, extension=True)
     ctx.validate("trace/Trace_Lerp.tla", pool_map(drive_lerp, lerp_recipes(ctx)) + [table_trace()], timeout=600)
     if ctx.ood:
         raise tlc.TLCFailure("constructed inputs were judged out of domain by TLC (%d): harness bug" % ctx.ood)
